@@ -198,6 +198,7 @@ def classify(prop, desc):
 
 def run_cbmc(work, q, cfile, entry, items, backend, timeout, trace_prop=None):
     cmd = ['cbmc', cfile, '--function', entry, '-I', Q2C] + CBMC_BASE + BACKENDS[backend] + list(q.extra_cbmc)
+    if getattr(q, '_assume', False): cmd += ['-DVF_ASSUME_AFTER_ASSERT']     # second attempt after a timeout: assert-then-assume (see vf_env.h)
     if q.leak: cmd += ['--memory-leak-check']
     if q.ptrovf: cmd += ['--pointer-overflow-check']
     if items: cmd += ['--unwindset', ','.join(items)]
@@ -395,7 +396,14 @@ def run_query(work, q, kf_open, seed=0, do_selfcheck=True):
         if 'no body for' in out:
             nb = re.findall(r'no body for (?:function|callee) (\S+)', out)
             return done('UNDECIDED', 'no body for callee(s): %s' % sorted(set(nb))[:5])
-        if to: return done('UNDECIDED', 'timeout %ds (%s)' % (q.timeout, used))
+        if to:
+            if not getattr(q, '_assume', False):
+                # plain assertions timed out: retry once as assert-then-assume (a path is followed only to its first failing harness assertion), which
+                # decides queries on broken code whose post-failure state blows the formula up; verdicts are the same in both modes
+                q._assume = True; r['assume_retry'] = True
+                attempt -= 1
+                continue
+            return done('UNDECIDED', 'timeout %ds (%s), also as assert-then-assume' % (q.timeout, used))
         if 'VERIFICATION SUCCESSFUL' not in out and 'VERIFICATION FAILED' not in out:
             return done('UNDECIDED', 'tool error rc=%s: %s' % (rc, out[-600:]))
         if '(error' in out: return done('UNDECIDED', 'solver error line: ' + out[-400:])
